@@ -10,6 +10,8 @@
                (linear length forms), STAP-A length prefix is len() of the very bytes appended, reader uses the same
                2-byte prefix
   C16-FUA      FU-A: indicator/header bit constants agree between writer and reader
+  C16-SEQ      H264Encoder._packetize over sequences of NAL sizes around every budget boundary (single / STAP-A / FU-A mixes): every payload
+               <= 1300 bytes and the depacketised concatenation equals the bitstream
   C16-SINGLE   single NAL unit packets of every type 1..23 and NRI are depacketised to start code + unit
   C16-DISPATCH depayload dispatches VP8 and H264 payloads to their descriptor parsers
 Does not decide: the <= 1300 bound of STAP-A totals for all size sequences (FU-A: decided on the boundary size classes k*1297..1300 +-1),
